@@ -230,7 +230,7 @@ def run_value(ctx, spec, t, v):
         # default of 0.0 and comes back as 0.0 (not judged)
         ok = json_nosign(V.vdigest(x)) == json_nosign(V.vdigest(v))
         if ok:
-            ctx.count('signed_zero_dropped_as_default_(not_judged)')
+            ctx.count('signed_zero_or_int_float_twin_dropped_as_default_(not_judged)')
     if not ok:
         mech = ''
         if shared:
@@ -267,9 +267,23 @@ def run_value(ctx, spec, t, v):
 
 
 def json_nosign(d):
+    """Digest with the distinctions Python's == does not make removed:
+    the sign of zero, and int against float of the same value (1 == 1.0).
+    Default-value sweetening compares with ==, so a model whose class
+    removes defaults drops -0.0 for a default of 0.0 and the int 1 for a
+    default of 1.0, and gets the default back: the model author's choice,
+    not the library's (C14 leaves the same pairs open)."""
     if isinstance(d, list):
         if len(d) == 2 and d[0] == 'float' and d[1] == '-0.0':
-            return ['float', '0.0']
+            return ['num', '0.0']
+        if len(d) == 2 and d[0] in ('int', 'float') and isinstance(d[1], str):
+            try:
+                f = float(d[1])
+                if d[0] == 'float' or abs(int(d[1])) < 2 ** 53:
+                    return ['num', repr(f)]
+            except (ValueError, OverflowError):
+                pass
+            return d
         return [json_nosign(x) for x in d]
     return d
 
